@@ -24,7 +24,7 @@ V5 == Val("q\"x\\y", "q\\\"x\\\\y", FALSE)                \* contains a quote an
 V6 == Val("x-_.9", "x-_.9", TRUE)
 V7 == Val("l1\nl2\tz", "l1\\nl2\\tz", FALSE)              \* newline and tab escapes
 Scalars == {V1, V2, V3, V4, V5, V6, V7}
-Lists == { <<V1, V2>>, <<V4, V6, V3>>, <<V5, V1>> }
+Lists == { <<V1, V2>>, <<V4, V6, V3>>, <<V5, V1>>, <<>> }        \* incl. the empty list
 ValueOpts == { <<v>> : v \in Scalars } \cup Lists
 
 ParamOpts == {<<>>} \cup { << <<"a", vo>> >> : vo \in ValueOpts }
